@@ -421,3 +421,7 @@ def run(ctx):
     rule_e(ctx)
     rule_f(ctx)
     rule_g(ctx)
+    # obligations shared with a sibling property (evaluated by the owning module, reported here under letter x)
+    from engine.rulelib import share as _share
+    _share(ctx, 'C12', '_path_generation', 'x', 'every path gets a fresh generation: packets of an aborted path must not be charged to the next path (the migrated connection would stall)')
+
